@@ -15,6 +15,10 @@
 
 #include <unordered_set>
 
+#ifdef OPENSMT_VERIF_TRACE
+#include <logics/VerifTraceTerms.h>
+#endif
+
 namespace opensmt {
 
 static SolverDescr descr_la_solver("LA Solver", "Solver for Quantifier Free Linear Arithmetics");
@@ -580,6 +584,23 @@ void LASolver::getConflict(vec<PtAsgn> & conflict) {
     for (PtAsgn lit : explanation) {
         conflict.push(lit);
     }
+#ifdef OPENSMT_VERIF_TRACE
+    if (veriftrace::on()) {
+        std::ostringstream os;
+        os << "{\"e\":\"farkas\",\"lits\":[";
+        for (int i = 0; i < explanation.size(); ++i) {
+            if (i > 0) { os << ','; }
+            os << "{\"s\":" << (explanation[i].sgn == l_True ? "true" : "false") << ",\"a\":" << veriftrace::termJson(logic, explanation[i].tr) << '}';
+        }
+        os << "],\"coefs\":[";
+        for (std::size_t i = 0; i < explanationCoefficients.size(); ++i) {
+            if (i > 0) { os << ','; }
+            os << veriftrace::quote(explanationCoefficients[i].get_str());
+        }
+        os << "]}";
+        veriftrace::emit(os.str());
+    }
+#endif
 }
 
 void LASolver::fillTheoryFunctions(ModelBuilder & modelBuilder) const {
